@@ -89,6 +89,19 @@ theorem case_insensitive_entry (b : Mem) (e e' : Str) (h : lower e = lower e') :
 
 example : «exists» { m := ["example.com.".toList] } "Sub.EXAMPLE.Com".toList = true := by decide
 
+
+/-- the ends of the fold: exactly `'A'..'Z'` are folded — both end letters are,
+the bytes just outside the two letter ranges are left alone (so `a[b` and `a{b`,
+`x@y` and ``x`y`` are different labels). -/
+theorem fold_boundaries :
+    lowerChar 'A' = 'a' ∧ lowerChar 'Z' = 'z' ∧ lowerChar 'B' = 'b' ∧ lowerChar 'Y' = 'y' ∧
+    lowerChar '@' = '@' ∧ lowerChar '[' = '[' ∧ lowerChar '`' = '`' ∧ lowerChar '{' = '{' ∧
+    «exists» { m := ["azure.example.com.".toList] } "AZure.example.com.".toList = true ∧
+    «exists» { m := ["azure.example.com.".toList] } "aZure.exAmple.com.".toList = true ∧
+    «exists» { m := ["a[b.net.".toList] } "a{b.net.".toList = false ∧
+    «exists» { m := ["x`y.net.".toList] } "x@y.net.".toList = false := by
+  decide
+
 /-- **Label boundary**: text without a dot glued in front of an entry is never
 matched by that entry (`notexample.com.` vs `example.com.`), whether the entry is
 plain or a wildcard suffix.  (`hc`: the glued name is already in canonical form.) -/
@@ -207,6 +220,33 @@ theorem earlier_replies_unchanged (cfg : Cfg) (b : Mem) (log : List Outcome) (q 
       · split at hrr
         · simp at hrr; rw [hrr]
         · simp at hrr; rw [hrr]
+
+
+/-- **The pass-through fast path never hides a blocked name**: `ServeDNS` skips
+the lookup when both maps are empty; whatever history of additions and removals
+produced the maps, a name that `Exists` reports is never served through that
+fast path — so the fast path and the lookup give the same outcome for every
+list, name and type. -/
+theorem fastpath_never_hides (cfg : Cfg) (b : Mem) (q : Str) (t : Nat) :
+    («exists» b q = true → b.m.length > 0 ∨ b.wild.length > 0) ∧
+    serveDNS cfg b q t =
+      (if «exists» b q then serveDNS cfg { b with m := b.m, wild := b.wild } q t
+       else { next := true, cancelled := false, written := none }) := by
+  constructor
+  · intro h
+    unfold «exists» at h
+    rw [existsCanon_iff] at h
+    rcases h.2 with (h | ⟨s, _, h⟩) | ⟨s, _, h⟩
+    · exact Or.inl (List.length_pos_of_mem h)
+    · exact Or.inl (List.length_pos_of_mem h)
+    · exact Or.inr (List.length_pos_of_mem h)
+  · cases h : «exists» b q with
+    | true => simp
+    | false => exact (blocked_reply_shape cfg b q t).1 h
+
+example : (serveDNS { nullroute := "0.0.0.0".toList, null6route := "::".toList }
+    (removeLocked (setLocked (setLocked {} "*.tracker.net".toList).1 "ads.example".toList).1 "ads.example".toList).1
+    "px.tracker.net.".toList typeA).next = false := by decide
 
 /-- Fact regenerated from the tree: in the default chain the blocklist runs
 before every handler that caches or goes upstream. -/
